@@ -21,8 +21,10 @@ import (
 	"context"
 	"errors"
 	"fmt"
+	"encoding/json"
 	"os"
 	"sort"
+	"sync"
 	"time"
 
 	"github.com/ChainSafe/sygma-relayer/comm"
@@ -47,7 +49,14 @@ type Msg struct {
 	At     int    `json:"at,omitempty"` // not delivered earlier than this many ms after the wait of the second attempt began
 }
 
-// Err is an error value: coord | comm | tss | subset | other | join | wrap
+// BMsg is a message that arrives during the bully election: select ("I am the coordinator") | election | alive
+type BMsg struct {
+	Type string `json:"type"`
+	From int    `json:"from"`
+}
+
+// Err is an error value: coord | comm | tss | subset | other | join | wrap | joinnil (errors.Join(nil, e, nil)) |
+// wrap2 (fmt.Errorf with two %w).  Peer -1 = the empty peer id.
 type Err struct {
 	K        string `json:"k"`
 	Peer     int    `json:"peer"`
@@ -88,6 +97,21 @@ type Case struct {
 	// coordinator's ready stream (Other's entry stands for its genuine answer), Msgs2 is offered to
 	// Other after it was left out; CTO (default 3 s) / TTO are Other's.
 	Other int `json:"other,omitempty"`
+	// What arrives at this relayer during the bully election, after its own announcement, in this order
+	// (a scripted Winner stands for a leading select message of that peer): from candidates, from
+	// excluded culprits that keep talking, from peers that hold no key.  BullyClass is the generator's
+	// classification: "guarded" (the election rule as coded ends with this relayer or a candidate) or
+	// "open-seat" (as coded a non-candidate wins: the known finding).
+	Bully      []BMsg `json:"bully,omitempty"`
+	BullyClass string `json:"bully_class,omitempty"`
+}
+
+func (c Case) script() []BMsg {
+	var out []BMsg
+	if c.Winner != nil {
+		out = append(out, BMsg{Type: "select", From: *c.Winner})
+	}
+	return append(out, c.Bully...)
 }
 
 const hourMs = 3600000
@@ -135,8 +159,9 @@ type Obs struct {
 	Runs      []RunObs   `json:"runs"`
 	Elected   *[]int     `json:"elected"`
 	Calls2    []CallObs  `json:"calls2"`
-	Ready2    []int      `json:"ready2"`
-	Final     int        `json:"final"` // 0 nil, 1 error containing the first attempt's failure, 2 other error
+	Ready1    []int      `json:"ready1,omitempty"` // silent: the ready messages of the first attempt
+	Ready2    []int      `json:"ready2"`           // ready messages sent after the failure
+	Final     int        `json:"final"` // 0 nil, 1 error containing the first attempt's failure, 2 other error, 3 Execute panicked
 	FinalText string     `json:"final_text,omitempty"`
 	Inits2    [][]int    `json:"inits2"` // addressees (sorted) of every initiate broadcast after the failure
 	Starts    []StartObs `json:"starts"` // every start broadcast of the session
@@ -191,14 +216,25 @@ func (t tbl) indices(ps []peer.ID) []int {
 	return out
 }
 
+// pid: -1 is the empty peer id.
+func (t tbl) pid(i int) peer.ID {
+	if i < 0 {
+		return peer.ID("")
+	}
+	return t.ids[i]
+}
+
 // build turns the case's error description into real Go error values.
 func build(e Err, t tbl, self peer.ID) error {
 	switch e.K {
 	case "coord":
-		return &tss.CoordinatorError{Peer: t.ids[e.Peer]}
+		return &tss.CoordinatorError{Peer: t.pid(e.Peer)}
 	case "comm":
-		return &comm.CommunicationError{Peer: t.ids[e.Peer], Err: errors.New("stream reset")}
+		return &comm.CommunicationError{Peer: t.pid(e.Peer), Err: errors.New("stream reset")}
 	case "subset":
+		if e.Peer < 0 {
+			return &tss.SubsetError{}
+		}
 		return &tss.SubsetError{Peer: self}
 	case "tss":
 		var culprits []*tsslib.PartyID
@@ -221,8 +257,12 @@ func build(e Err, t tbl, self peer.ID) error {
 			ks = append(ks, build(k, t, self))
 		}
 		return errors.Join(ks...)
+	case "joinnil":
+		return errors.Join(nil, build(e.Kids[0], t, self), nil)
 	case "wrap":
 		return fmt.Errorf("signing failed: %w", build(e.Kids[0], t, self))
+	case "wrap2":
+		return fmt.Errorf("attempt failed: %w (after %w)", build(e.Kids[0], t, self), build(e.Kids[1], t, self))
 	}
 	panic("unknown error kind " + e.K)
 }
@@ -230,6 +270,8 @@ func build(e Err, t tbl, self peer.ID) error {
 type attempt struct {
 	obs   Obs
 	initN int // initiate broadcasts by this relayer after the failure
+	// the scripted election messages were all handed over well before BullyWaitTime can have ended
+	bullyInTime bool
 }
 
 // unreachable builds the transport's answer for peers that cannot be reached: the
@@ -240,7 +282,9 @@ func unreachable(t tbl, is []int) func(fk.ScriptSent) error {
 	}
 	dead := map[peer.ID]bool{}
 	for _, i := range is {
-		dead[t.ids[i]] = true
+		if i >= 0 && i < len(t.ids) {
+			dead[t.ids[i]] = true
+		}
 	}
 	return func(s fk.ScriptSent) error {
 		for _, p := range s.To {
@@ -269,6 +313,7 @@ type node struct {
 	retry bool
 	done  chan struct{}
 	ferr  error
+	crash interface{}
 	d     *fk.C07Driver
 }
 
@@ -307,9 +352,19 @@ func (r *node) start(ctx context.Context) {
 	res := make(chan interface{}, 8)
 	go func() {
 		defer close(r.done)
+		// a panic of the code under test (the conc pools re-raise the panics of their tasks in Wait, i.e.
+		// here) belongs to THIS case, whichever case the runner's foreground is busy with
+		defer func() {
+			if x := recover(); x != nil {
+				r.crash = x
+				r.ferr = fmt.Errorf("panic: %v", x)
+			}
+		}()
 		r.ferr = r.co.Execute(ctx, []tss.TssProcess{r.proc}, res)
 	}()
 }
+
+
 
 // timed delivers the messages not earlier than their times (counted from began) to the start-th
 // initiate / start subscription and the fail-th fail subscription; it gives up when the session or
@@ -346,7 +401,7 @@ func (r *node) timed(t tbl, msgs []Msg, began time.Time, startOrd, failOrd int, 
 
 // collect turns what was recorded into the observation.  calls1 / ready1 / init1: how many Ready
 // calls / ready messages / initiate broadcasts belong to the time before the failure.
-func (r *node) collect(t tbl, o *Obs, calls1, ready1, init1 int, original func(error) bool) {
+func (r *node) collect(t tbl, o *Obs, calls1, ready1, init1 int, original func(error) bool, listReady1 bool) {
 	o.Retryable = r.retry
 	for _, run := range r.proc.Runs() {
 		ps, ok := fk.C07DecodeParams(run.Params)
@@ -371,12 +426,14 @@ func (r *node) collect(t tbl, o *Obs, calls1, ready1, init1 int, original func(e
 	for _, s := range r.cm.Sent() {
 		switch s.Type {
 		case comm.TssReadyMsg:
+			p := unknownPeer
+			if len(s.To) == 1 {
+				p = t.index(s.To[0])
+			}
 			if k >= ready1 {
-				p := unknownPeer
-				if len(s.To) == 1 {
-					p = t.index(s.To[0])
-				}
 				o.Ready2 = append(o.Ready2, p)
+			} else if listReady1 {
+				o.Ready1 = append(o.Ready1, p)
 			}
 			k++
 		case comm.TssInitiateMsg:
@@ -394,6 +451,10 @@ func (r *node) collect(t tbl, o *Obs, calls1, ready1, init1 int, original func(e
 		}
 	}
 	switch {
+	case r.crash != nil:
+		// Execute panicked: reported as the session's outcome (the judge accepts it nowhere), so that the
+		// remaining cases are still run
+		o.Final = 3
 	case r.ferr == nil:
 		o.Final = 0
 	case original(r.ferr):
@@ -424,6 +485,11 @@ func drive(c Case, bullyWait time.Duration) attempt {
 		injected = build(*c.Err, t, self)
 	}
 	dead := unreachable(t, c.Unreach)
+	// the bully election cannot begin before this moment
+	var notBefore time.Time
+	var nbMu sync.Mutex
+	setNotBefore := func(x time.Time) { nbMu.Lock(); notBefore = x; nbMu.Unlock() }
+	getNotBefore := func() time.Time { nbMu.Lock(); defer nbMu.Unlock(); return notBefore }
 	proc.Behave = func(n int, ctx context.Context) error {
 		if n > 0 || c.Kind != "fail" {
 			return nil
@@ -437,6 +503,7 @@ func drive(c Case, bullyWait time.Duration) attempt {
 		if c.Variant == "abort" {
 			<-ctx.Done()
 		}
+		setNotBefore(time.Now())
 		return injected
 	}
 	co.TssTimeout = time.Duration(c.ttoMs()) * time.Millisecond
@@ -450,15 +517,50 @@ func drive(c Case, bullyWait time.Duration) attempt {
 
 	ctx, cancel := context.WithCancel(context.Background())
 	defer cancel()
+	if c.Kind == "silent" {
+		// the CoordinatorError comes a coordinator timeout after the wait began
+		setNotBefore(time.Now().Add(time.Duration(c.ctoMs()) * time.Millisecond))
+	}
 	r.start(ctx)
 
-	// the bully's answers: an earlier candidate announces itself
-	if c.Winner != nil {
-		w := t.ids[*c.Winner]
-		bully.OnSubscribe = func(s *fk.ScriptSub) {
-			if s.Type == comm.CoordinatorSelectMsg {
-				fk.ScriptPush(s, w, []byte{}, fk.C07Deadline(), done)
+	// What arrives during the bully election: handed over one at a time, in the scripted order, after this
+	// relayer's own announcement (it processes nothing before).  The last message must have been taken
+	// well before BullyWaitTime can be over; otherwise the caller repeats the case with a longer window.
+	script := c.script()
+	bullyInTime := true
+	deliverBully := func(readyOrd, startOrd int) {
+		if len(script) == 0 {
+			return
+		}
+		// wait for this relayer's own announcement - or for evidence that no election takes place
+		for begin := time.Now(); !bully.WaitSent(comm.CoordinatorSelectMsg, 1, done, 20*time.Millisecond); {
+			select {
+			case <-done:
+				return
+			default:
 			}
+			if cm.SubCount(c.Sid, comm.TssStartMsg) >= startOrd || cm.SubCount(c.Sid, comm.TssReadyMsg) >= readyOrd ||
+				time.Since(begin) > fk.C07Deadline() {
+				return
+			}
+		}
+		for _, b := range script {
+			ty := comm.CoordinatorSelectMsg
+			switch b.Type {
+			case "election":
+				ty = comm.CoordinatorElectionMsg
+			case "alive":
+				ty = comm.CoordinatorAliveMsg
+			}
+			sub := bully.WaitSub(c.Sid, ty, 1, done, fk.C07Deadline())
+			if sub == nil || !fk.ScriptPush(sub, t.ids[b.From], []byte{}, fk.C07Deadline(), done) {
+				break
+			}
+		}
+		// a trailing re-election (an answered Election message) takes ElectionWaitTime
+		time.Sleep(15 * time.Millisecond)
+		if nb := getNotBefore(); nb.IsZero() || time.Since(nb) > bullyWait-bullyWait/4 {
+			bullyInTime = false
 		}
 	}
 
@@ -493,9 +595,6 @@ func drive(c Case, bullyWait time.Duration) attempt {
 	calls1 := len(proc.ReadyCalls())
 	ready1 := cm.CountSent(comm.TssReadyMsg)
 	init1 := cm.CountSent(comm.TssInitiateMsg)
-	if c.Kind == "silent" {
-		ready1 = 0 // every ready message of the session is listed
-	}
 
 	// ---- second attempt (if the implementation starts one): feed whichever loop appears
 	if nfirst == 1 || c.Kind == "silent" {
@@ -506,6 +605,7 @@ func drive(c Case, bullyWait time.Duration) attempt {
 		if c.Kind == "silent" || !role1 {
 			startOrd = 2
 		}
+		deliverBully(readyOrd, startOrd)
 		sub := cm.WaitAnySub(c.Sid, []fk.ScriptWant{{Type: comm.TssReadyMsg, Ordinal: readyOrd}, {Type: comm.TssStartMsg, Ordinal: startOrd}}, done, fk.C07Deadline())
 		switch {
 		case sub == nil:
@@ -541,8 +641,8 @@ func drive(c Case, bullyWait time.Duration) attempt {
 		var ce *tss.CoordinatorError
 		return injected != nil && errors.Is(ferr, injected) ||
 			c.Kind == "silent" && errors.As(ferr, &ce) && ce.Peer == genuine
-	})
-	return attempt{obs: o, initN: cm.CountSent(comm.TssInitiateMsg) - init1}
+	}, c.Kind == "silent")
+	return attempt{obs: o, initN: cm.CountSent(comm.TssInitiateMsg) - init1, bullyInTime: bullyInTime}
 }
 
 // driveDuo runs the session's coordinator A (= Self) and another key holder B (= Other) as two real
@@ -659,25 +759,29 @@ func driveDuo(c Case) Obs {
 		o.Note += " the other relayer's Execute did not return"
 	}
 	never := func(error) bool { return false }
-	ra.collect(t, &o, len(ra.proc.ReadyCalls()), ra.cm.CountSent(comm.TssReadyMsg), ra.cm.CountSent(comm.TssInitiateMsg), never)
-	rb.collect(t, o.B, 0, readyB, 0, func(ferr error) bool { return errors.Is(ferr, leftOut) })
+	ra.collect(t, &o, len(ra.proc.ReadyCalls()), ra.cm.CountSent(comm.TssReadyMsg), ra.cm.CountSent(comm.TssInitiateMsg), never, false)
+	rb.collect(t, o.B, 0, readyB, 0, func(ferr error) bool { return errors.Is(ferr, leftOut) }, false)
 	return o
 }
 
-func run(c Case) Obs {
+func runNow(c Case) Obs {
 	if c.Kind == "duo" {
 		return driveDuo(c)
 	}
 	wait := 30 * time.Millisecond
-	if c.Winner != nil {
+	if len(c.script()) > 0 {
 		wait = 300 * time.Millisecond
 	}
 	a := drive(c, wait)
-	// The bully election is exercised, not verified: if the scripted winner's announcement lost the
-	// race against BullyWaitTime (machine under load), the relayer acted as coordinator itself;
-	// repeat once with a much longer election window before reporting.
-	if c.Winner != nil && a.initN > 0 {
+	// The election's wall-clock window is the only timing these cases depend on: if the scripted
+	// messages were not all handed over well within BullyWaitTime (machine under load; or a scripted
+	// winner evidently lost the race: the relayer acted as coordinator itself), repeat with a much
+	// longer window before reporting.
+	if !a.bullyInTime || c.Winner != nil && len(c.Bully) == 0 && a.initN > 0 {
 		a = drive(c, 1500*time.Millisecond)
+		if !a.bullyInTime {
+			a = drive(c, 5*time.Second)
+		}
 	}
 	return a.obs
 }
@@ -729,7 +833,16 @@ func timeoutErr() Err { return Err{K: "other"} }
 
 // decorate wraps a cause: alone, joined with a timeout error (either side), nested joins, %w.
 func decorate(r *vgen.Rng, e Err) Err {
-	switch r.Intn(7) {
+	switch r.Intn(10) {
+	case 7: // what the pools build: errors.Join(nil, e)
+		return Err{K: "joinnil", Kids: []Err{e}}
+	case 8: // doubly wrapped
+		return Err{K: "wrap", Kids: []Err{{K: "wrap", Kids: []Err{e}}}}
+	case 9: // two %w in one fmt.Errorf
+		if r.Bool() {
+			return Err{K: "wrap2", Kids: []Err{timeoutErr(), e}}
+		}
+		return Err{K: "wrap2", Kids: []Err{e, timeoutErr()}}
 	case 0, 1:
 		return e
 	case 2:
@@ -745,7 +858,255 @@ func decorate(r *vgen.Rng, e Err) Err {
 	}
 }
 
+// bullyCoded mirrors the election rule as coded (Model/C11.v bully_coded): cands in session order.
+func bullyCoded(cands []int, self int, script []BMsg) int {
+	rank := func(p int) int {
+		for i, x := range cands {
+			if x == p {
+				return i
+			}
+		}
+		return 0
+	}
+	cur := self
+	for _, b := range script {
+		switch b.Type {
+		case "select":
+			if rank(b.From) < rank(cur) || b.From == self {
+				cur = b.From
+			}
+		case "election":
+			if !(rank(b.From) < rank(self)) {
+				cur = self
+			}
+		}
+	}
+	return cur
+}
+
+// mkBully builds a failure case whose re-election is visited by an intruder X - a peer outside the
+// candidate list: an excluded culprit, or a peer that holds no key.  T = the first candidate.
+//
+//	late / late-noise   this relayer is not T: T announces itself, THEN X does (with Election / Alive noise)
+//	top / top-noise     this relayer is T: X announces itself
+//	early / mid / alone X announces itself while this relayer's current coordinator is not T (before T,
+//	                    after a middle candidate, alone): as coded X wins - class "open-seat"
+//
+// Afterwards both X and the legitimate coordinator send initiate and start messages: whom the relayer
+// answers and whose start it obeys shows whom it took for the coordinator.
+func mkBully(r *vgen.Rng, mk func(string, bool, string, bool, string) Case, shape, proc string) (Case, bool) {
+	outsider := len(shape) > 9 && shape[len(shape)-9:] == "-outsider"
+	base := shape
+	if outsider {
+		base = shape[:len(shape)-9]
+	}
+	for try := 0; try < 60; try++ {
+		cause := vgen.Pick(r, []string{"coord", "tss", "tss"})
+		if outsider {
+			cause = vgen.Pick(r, []string{"comm", "tss"})
+		}
+		role1 := base == "top" || base == "top-noise"
+		if role1 && cause == "coord" && r.Bool() {
+			role1 = false // the first attempt's coordinator is the culprit; this relayer may be the next in line
+		}
+		c := mk(cause, role1, proc, false, "immediate")
+		c.Winner = nil
+		nh := len(c.Holders)
+		order := sortedByKey(c.Peers, c.Sid, c.Holders)
+		excluded := map[int]bool{}
+		var walk func(Err)
+		walk = func(x Err) {
+			if x.K == "coord" {
+				excluded[x.Peer] = true
+			}
+			for _, q := range x.Culprits {
+				excluded[q] = true
+			}
+			for _, k := range x.Kids {
+				walk(k)
+			}
+		}
+		walk(*c.Err)
+		if excluded[c.Self] {
+			continue
+		}
+		var cands []int
+		sp := -1
+		for _, p := range order {
+			if !excluded[p] {
+				if p == c.Self {
+					sp = len(cands)
+				}
+				cands = append(cands, p)
+			}
+		}
+		x := -1
+		if outsider {
+			if len(c.Peers) > nh {
+				x = nh
+			}
+		} else {
+			for _, p := range order {
+				if excluded[p] {
+					x = p
+				}
+			}
+		}
+		if x < 0 || sp < 0 || len(cands) < 2 {
+			continue
+		}
+		T := cands[0]
+		sel := func(p int) BMsg { return BMsg{Type: "select", From: p} }
+		noise := []BMsg{{Type: "election", From: x}, {Type: "alive", From: x}}
+		legit := T
+		switch base {
+		case "late":
+			if sp == 0 {
+				continue
+			}
+			c.Bully = []BMsg{sel(T), sel(x)}
+		case "late-noise":
+			if sp == 0 {
+				continue
+			}
+			c.Bully = append(append(append([]BMsg{}, noise...), sel(T)), append(noise, sel(x), sel(x))...)
+		case "top":
+			if sp != 0 {
+				continue
+			}
+			c.Bully = []BMsg{sel(x)}
+			legit = cands[1]
+		case "top-noise":
+			if sp != 0 {
+				continue
+			}
+			c.Bully = append(append([]BMsg{}, noise...), sel(x))
+			legit = cands[1]
+		case "early":
+			if sp == 0 {
+				continue
+			}
+			c.Bully = []BMsg{sel(x), sel(T)}
+		case "mid":
+			if sp < 2 {
+				continue
+			}
+			c.Bully = []BMsg{sel(cands[r.Range(1, sp-1)]), sel(x)}
+			legit = c.Bully[0].From
+		case "alone":
+			if sp == 0 {
+				continue
+			}
+			c.Bully = []BMsg{sel(x)}
+			legit = c.Self
+		}
+		c.BullyClass = "guarded"
+		won := bullyCoded(cands, c.Self, c.Bully)
+		if won != c.Self {
+			ok := false
+			for _, p := range cands {
+				ok = ok || p == won
+			}
+			if !ok {
+				c.BullyClass = "open-seat"
+			}
+		}
+		px := []int{x}
+		pl := shuffled(r, c.Holders)[:c.T+1]
+		c.Msgs2 = []Msg{{Type: "initiate", From: x}}
+		if legit != c.Self {
+			c.Msgs2 = append(c.Msgs2, Msg{Type: "initiate", From: legit})
+		}
+		c.Msgs2 = append(c.Msgs2, Msg{Type: "start", From: x, Params: px})
+		if legit != c.Self {
+			c.Msgs2 = append(c.Msgs2, Msg{Type: "start", From: legit, Params: pl})
+		}
+		return c, true
+	}
+	return Case{}, false
+}
+
+// ---- prefetch ----------------------------------------------------------------------------------------
+// The cases spend their time waiting (timeouts, election windows); a few workers run the generated ones
+// in the background as soon as they exist and run() only picks up the result.  Every case is
+// independent of every other; corpus and replay cases are run in the foreground as before.
+
+type future struct {
+	done  chan struct{}
+	obs   Obs
+	crash interface{}
+}
+
+var (
+	preMu sync.Mutex
+	pre   = map[string]*future{}
+)
+
+func caseKey(c Case) string {
+	b, _ := json.Marshal(c)
+	return string(b)
+}
+
+func prefetch(cases []Case, workers int) {
+	var todo []Case
+	preMu.Lock()
+	for _, c := range cases {
+		k := caseKey(c)
+		if _, ok := pre[k]; ok {
+			continue
+		}
+		pre[k] = &future{done: make(chan struct{})}
+		todo = append(todo, c)
+	}
+	preMu.Unlock()
+	ch := make(chan Case)
+	for w := 0; w < workers; w++ {
+		go func() {
+			for c := range ch {
+				preMu.Lock()
+				f := pre[caseKey(c)]
+				preMu.Unlock()
+				func() {
+					defer func() {
+						if r := recover(); r != nil {
+							f.crash = r
+						}
+						close(f.done)
+					}()
+					f.obs = runNow(c)
+				}()
+			}
+		}()
+	}
+	go func() {
+		for _, c := range todo {
+			ch <- c
+		}
+		close(ch)
+	}()
+}
+
+func run(c Case) Obs {
+	preMu.Lock()
+	f := pre[caseKey(c)]
+	preMu.Unlock()
+	if f == nil {
+		return runNow(c)
+	}
+	<-f.done
+	if f.crash != nil {
+		panic(f.crash)
+	}
+	return f.obs
+}
+
 func gen(r *vgen.Rng, tier string) []Case {
+	out := genCases(r, tier)
+	prefetch(out, 4)
+	return out
+}
+
+func genCases(r *vgen.Rng, tier string) []Case {
 	var out []Case
 	reps := 1
 	if tier == "thorough" {
@@ -800,6 +1161,31 @@ func gen(r *vgen.Rng, tier string) []Case {
 			e = Err{K: "subset"}
 		case "other":
 			e = Err{K: "other"}
+		// degenerate failure values
+		case "tss-none": // no culprit at all (tss-lib wraps many round failures without naming anybody)
+			e = Err{K: "tss"}
+		case "tss-outsider": // a culprit that is not a committee member (a peer without key if the table has one)
+			e = Err{K: "tss", Culprits: []int{m - 1, culprits[0]}}
+			if r.Bool() {
+				e.Culprits = []int{m - 1}
+			}
+		case "tss-dup":
+			e = Err{K: "tss", Culprits: append(append([]int{}, culprits...), culprits[0])}
+		case "tss-self":
+			e = Err{K: "tss", Culprits: []int{c.Self}}
+			if r.Bool() {
+				e.Culprits = append(e.Culprits, culprits[0])
+			}
+		case "coord-empty":
+			e = Err{K: "coord", Peer: -1}
+		case "coord-self":
+			e = Err{K: "coord", Peer: c.Self}
+		case "coord-outsider":
+			e = Err{K: "coord", Peer: m - 1}
+		case "comm-empty":
+			e = Err{K: "comm", Peer: -1}
+		case "subset-empty":
+			e = Err{K: "subset", Peer: -1}
 		case "two": // two recognised causes joined: precedence
 			a := Err{K: "tss", Culprits: culprits}
 			b := Err{K: "subset"}
@@ -830,6 +1216,7 @@ func gen(r *vgen.Rng, tier string) []Case {
 			}
 		}
 		walk(e)
+		delete(excluded, -1)
 		if useWinner {
 			// an earlier candidate than self, not a culprit (if there is one); rarely a later one
 			var cands []int
@@ -876,11 +1263,13 @@ func gen(r *vgen.Rng, tier string) []Case {
 		if r.Bool() {
 			silenced := map[int]bool{}
 			for p := range excluded {
-				c.Unreach = append(c.Unreach, p)
+				if p != c.Self {
+					c.Unreach = append(c.Unreach, p)
+				}
 			}
 			var walkComm func(Err)
 			walkComm = func(x Err) {
-				if x.K == "comm" {
+				if x.K == "comm" && x.Peer >= 0 && x.Peer != c.Self {
 					c.Unreach = append(c.Unreach, x.Peer)
 					silenced[x.Peer] = true
 				}
@@ -916,6 +1305,21 @@ func gen(r *vgen.Rng, tier string) []Case {
 					}
 					out = append(out, mk(cause, role1, proc, pi == 2 || pi == 3, variant))
 				}
+			}
+		}
+		// degenerate failure values: no culprit, a culprit without key, a repeated culprit, this relayer itself,
+		// the empty peer id - on signing processes in both roles (and once on a keygen)
+		for di, cause := range []string{"tss-none", "tss-outsider", "tss-dup", "tss-self", "coord-empty", "coord-self", "coord-outsider", "comm-empty", "subset-empty"} {
+			for ri, role1 := range []bool{true, false} {
+				out = append(out, mk(cause, role1, procs[(di+ri+k)%2], false, "immediate"))
+			}
+		}
+		out = append(out, mk("tss-none", false, "ecdsa", true, "abort"), mk("tss-none", true, "frost-keygen", false, "immediate"))
+		// the election of the replacement attempt with peers that are NOT candidates taking part: an excluded
+		// culprit that keeps talking (it runs its own election for the session), a peer without key
+		for _, shape := range []string{"late", "late-noise", "top", "top-noise", "late", "top", "late-outsider", "top-outsider", "early", "mid", "alone"} {
+			if c, ok := mkBully(r, mk, shape, procs[r.Intn(2)]); ok {
+				out = append(out, c)
 			}
 		}
 		// how long a left-out relayer keeps waiting: CoordinatorTimeout << arrival of the replacement
@@ -1099,7 +1503,7 @@ func coqErr(e Err) string {
 		return "Node (KTss " + PL(e.Culprits) + " " + vgen.Bool(!e.Bad) + ") " + kids
 	case "other":
 		return "Node KOther []"
-	case "join", "wrap":
+	case "join", "wrap", "joinnil", "wrap2":
 		return "Node KOther " + kids
 	}
 	panic("unknown error kind")
@@ -1152,10 +1556,15 @@ func coq(c Case, o Obs) string {
 	}
 	tmsg := func(m Msg) string { return vgen.Pair(vgen.N(uint64(m.At)), msg(m)) }
 	tm := "(mkTiming " + vgen.N(uint64(c.ctoMs())) + " " + vgen.N(uint64(c.ttoMs())) + ")"
-	winner := "None"
-	if c.Winner != nil {
-		winner = vgen.Some(P(*c.Winner))
-	}
+	winner := vgen.ListOf(c.script(), func(b BMsg) string {
+		switch b.Type {
+		case "election":
+			return "BElection " + P(b.From)
+		case "alive":
+			return "BAlive " + P(b.From)
+		}
+		return "BSelect " + P(b.From)
+	})
 	head := vgen.ListOf(o.Keys, vgen.N) + " " + tm + " " + fmt.Sprintf("%d%%nat", len(c.Peers)) + " " + PL(c.Holders) + " " + vgen.Z(int64(c.T)) + " " + P(c.Self)
 	if c.Kind == "duo" {
 		ob := Obs{}
@@ -1165,15 +1574,16 @@ func coq(c Case, o Obs) string {
 		return "Duo " + head + " " + P(c.Other) + " " + PL(c.Ready1) + " " + vgen.ListOf(c.Msgs2, tmsg) + " " + coqObs(o) + " " + coqObs(ob)
 	}
 	head += " " + procKind(c.Proc) + " " + vgen.Bool(o.Retryable)
-	tail := PL(c.Unreach) + " " + winner + " " + PL(c.Ready2) + " " + vgen.ListOf(c.Msgs2, tmsg) + " " + coqObs(o)
+	tail := PL(c.Unreach) + " " + winner + " " + PL(c.Ready2) + " " + vgen.ListOf(c.Msgs2, tmsg) + " "
 	if c.Kind == "silent" {
-		return "Silent " + head + " " + vgen.ListOf(c.Msgs1, tmsg) + " " + tail
+		return "Silent " + head + " " + vgen.ListOf(c.Msgs1, tmsg) + " " + tail + PL(o.Ready1) + " " + coqObs(o)
 	}
+	tail += coqObs(o)
 	return "Fail " + head + " " + PL(c.Ready1) + " " + PL(c.Start1) + " " + seen(c) + " " + tail
 }
 
 func rootKinds(e Err, acc map[string]bool) {
-	if e.K != "join" && e.K != "wrap" && e.K != "other" {
+	if e.K != "join" && e.K != "wrap" && e.K != "other" && e.K != "joinnil" && e.K != "wrap2" {
 		acc[e.K] = true
 	}
 	for _, k := range e.Kids {
@@ -1217,7 +1627,11 @@ func kind(c Case) string {
 			}
 		}
 	}
-	return "fail:" + procKind(c.Proc) + ":" + s[1:] + ":" + c.Variant + timed + unreach
+	bully := ""
+	if len(c.Bully) > 0 {
+		bully = ":intruder-" + c.BullyClass
+	}
+	return "fail:" + procKind(c.Proc) + ":" + s[1:] + ":" + c.Variant + timed + unreach + bully
 }
 
 func main() {
@@ -1239,6 +1653,8 @@ func main() {
 			"and with arrival 6 s >> TssTimeout 2 s; in half of the cases the culprits (and the peer of a communication failure) cannot be reached from the failure on (every Broadcast addressing them returns a CommunicationError); " +
 			"plus silent-coordinator sessions (the implementation's own CoordinatorError), alone and in the middle of forged initiate/start/fail traffic of other peers every 60..90 ms (CoordinatorTimeout 300 ms, TssTimeout 3 s), also after an initiate message of the coordinator itself (at 100 ms, CoordinatorTimeout 600 ms); " +
 			"plus two real relayers over one network (the coordinator and a key holder whose ready answer is lost / late / in time); " +
+			"plus degenerate failure values (tss.Error with no culprit / a culprit without key / a repeated culprit / this relayer itself, CoordinatorError with the empty id / this relayer / a peer without key, CommunicationError and SubsetError with the empty id; errors.Join(nil, e, nil), double %w, two %w) x both roles; " +
+			"plus re-elections visited by a peer outside the candidate list (excluded culprit or peer without key) sending Election / Alive / Select messages before, between and after the first candidate's announcement, at the first candidate and at later ones, followed by initiate / start messages of the intruder and of the legitimate coordinator; " +
 			"distinct = distinct input JSON; non-trivial = the first attempt reached Run (or the coordinator stayed silent)",
 		ShardSize: 100,
 	})
